@@ -178,6 +178,20 @@ def _apply(op, p, rec, psi, qubits, dims):
                 r2.setdefault(str(cirq.measurement_key_name(op0)), []).append(recorded)
                 out.append((p * pw, r2, post))
         return out
+    if isinstance(op0.gate, cirq.PauliMeasurementGate):
+        # projective measurement of a +-1 observable: record 0 for eigenvalue +1, 1 for -1; state projected, not collapsed further
+        obs = op0.gate.observable()
+        M = embed(cirq.unitary(obs), list(op0.qubits), qubits, dims)
+        out = []
+        for bit, sign in ((0, 1), (1, -1)):
+            proj = (psi + sign * (M @ psi)) / 2
+            pr = float(np.vdot(proj, proj).real)
+            if pr < 1e-14:
+                continue
+            r2 = {k: list(v) for k, v in rec.items()}
+            r2.setdefault(str(cirq.measurement_key_name(op0)), []).append(((bit, 2),))
+            out.append((p * pr, r2, proj / np.sqrt(pr)))
+        return out
     if cirq.has_unitary(op):
         U = embed(cirq.unitary(op), list(op.qubits), qubits, dims)
         return [(p, rec, U @ psi)]
